@@ -242,8 +242,32 @@ class Resolver:
                         return ('inst', bases[1])
             if ft and ft[0] == 'func' and ft[1].name == 'copy' and ft[1].cls:
                 return ('inst', ft[1].cls)
+            if ft and ft[0] == 'func':
+                return self.return_type(ft[1], _depth + 1)
             return None
         return None
+
+    def return_type(self, f, _depth=0):
+        '''Type returned by repo function f when every `return <expr>` has the same derivable type.'''
+        memo = self.__dict__.setdefault('_ret_memo', {})
+        if f.key in memo:
+            return memo[f.key]
+        stack = self.__dict__.setdefault('_ret_stack', [])
+        if len(stack) > 6 or f.key in stack:
+            return None
+        stack.append(f.key)
+        tys = []
+        try:
+            for n in f.own_nodes():
+                if isinstance(n, ast.Return) and n.value is not None:
+                    tys.append(self.type_of(n.value, f, 0))
+        finally:
+            stack.pop()
+        out = None
+        if tys and all(t is not None for t in tys) and len({self._tykey(t) for t in tys}) == 1:
+            out = tys[0]
+        memo[f.key] = out
+        return out
 
     def _type_of_name(self, name, func, _depth):
         f = func
@@ -326,7 +350,7 @@ class Resolver:
                         v = n.value
                         if isinstance(v, ast.Name) and v.id in f.params[1:] and self.assign_counts(f).get(v.id) == 1:
                             param_flows.append((f, v.id, f.cls, t.attr))
-        for _round in range(4):
+        for _round in range(6):
             changed = False
             for f in repo.funcs.values():
                 if not f.cls or f.parent is not None or not f.params or f.params[0] != 'self':
@@ -379,6 +403,8 @@ class Resolver:
                                     self.field_types[(bt[1], t.attr)] = ty
                                     self.field_sources[(bt[1], t.attr)] = f'{f.key}: {norm(n)}'
                                     changed = True
+            self.__dict__.pop('_ret_memo', None)
+            self._local_cache = {}
             if not changed:
                 break
 
